@@ -244,11 +244,22 @@ pub fn list_fval(push_state: &mut PushState, _instruction_cache: &InstructionCac
 pub fn list_set(push_state: &mut PushState, _instruction_cache: &InstructionCache) {
     if let Some(index) = push_state.int_stack.pop() {
         let size = push_state.code_stack.size() as i32;
+        if size == 0 {
+            // No record to replace: leave the designated items where they are
+            return;
+        }
         let list_index = i32::max(i32::min(size - 1, index), 0) as usize;
         if let Some(items) = load_items(push_state) {
             // items.reverse();
             let list_item = Item::list(items);
-            let _res = push_state.code_stack.replace(list_index, list_item);
+            if push_state
+                .code_stack
+                .replace(list_index, list_item.clone())
+                .is_err()
+            {
+                // The addressed record was itself taken by the id vector: keep the new record
+                push_state.code_stack.push(list_item);
+            }
         }
     }
 }
